@@ -157,15 +157,19 @@ def chk_schedules(T, v, M, opts):
             got, err = drive(dec, f, feeder, parts[1:] + [None], spec) if False else (None, None)
             # drive with explicit end-of-stream after the last chunk
             pend = parts[1:]
-            got, err = _drive_feed(dec, f, pend, spec)
+            # every other schedule signals the end of the stream late: only after the decoder, having
+            # delivered the last object, polled once more and found nothing ("no data yet", then "closed")
+            late = n % 2 == 0
+            got, err = _drive_feed(dec, f, pend, spec, late_close=late)
             if err or len(got) != 2 or any(not same(bridge, T, g, want) for g in got):
                 out.append(fail('schedules', T, v, err or 'objects differ from one-shot decoding (%d objects)' % len(got),
-                                enc=e, codec=ename, parts=[p.hex() for p in parts], source='non-seekable'))
+                                enc=e, codec=ename, parts=[p.hex() for p in parts], source='non-seekable',
+                                close='after-a-poll' if late else 'with-the-last-octet'))
                 break
     return out, n
 
 
-def _drive_feed(dec, f, pend, spec):
+def _drive_feed(dec, f, pend, spec, late_close=False):
     from pyasn1 import error
     out = []
     it = iter(dec.StreamingDecoder(f, asn1Spec=spec))
@@ -189,7 +193,7 @@ def _drive_feed(dec, f, pend, spec):
                     return out, 'underrun reported although the stream is closed and drained'
                 continue
             out.append(r)
-            if not pend and not f.buf and not f.closed_:
+            if not late_close and not pend and not f.buf and not f.closed_:
                 f.finish()
     except Exception as e:
         return out, '%s: %s' % (type(e).__name__, str(e)[:150])
